@@ -23,11 +23,68 @@ class AnalysisError(Exception):
 # E1 index
 
 
-def bind_named(fn, spec, skip_first=True):
+def unrolled_assigns(tree, global_literals=None):
+    """every Assign of `tree`, plus - for `for name in <literal sequence of strings>: ... X[name] = getattr(obj, name) ...` (the sequence
+    written in place, bound once in the same function, or a module-level table) - one copy of each Assign of the loop body per listed
+    string, with the loop variable replaced by the string and `getattr(obj, 'K')` read as `obj.K`"""
+    import copy
+    out = []
+
+    def literal_strings(it, scope):
+        if isinstance(it, (ast.Tuple, ast.List)) and it.elts and all(isinstance(e, ast.Constant) and isinstance(e.value, str) for e in it.elts):
+            return [e.value for e in it.elts]
+        if isinstance(it, ast.Name):
+            if global_literals is not None and it.id in global_literals:
+                return literal_strings(global_literals[it.id], None)
+            if scope is not None:
+                defs = [s_ for s_ in ast.walk(scope) if isinstance(s_, ast.Assign) and any(isinstance(t, ast.Name) and t.id == it.id for t in s_.targets)]
+                if len(defs) == 1:
+                    return literal_strings(defs[0].value, None)
+        return None
+
+    class Sub(ast.NodeTransformer):
+        def __init__(self, var, value):
+            self.var, self.value = var, value
+
+        def visit_Name(self, n):
+            if n.id == self.var and isinstance(n.ctx, ast.Load):
+                return ast.copy_location(ast.Constant(value=self.value), n)
+            return n
+
+        def visit_Call(self, n):
+            self.generic_visit(n)
+            if isinstance(n.func, ast.Name) and n.func.id == "getattr" and len(n.args) == 2 and isinstance(n.args[1], ast.Constant) \
+                    and isinstance(n.args[1].value, str) and n.args[1].value.isidentifier():
+                return ast.copy_location(ast.Attribute(value=n.args[0], attr=n.args[1].value, ctx=ast.Load()), n)
+            return n
+
+    def scope_of(n):
+        while n is not None and not isinstance(n, (ast.FunctionDef, ast.Module)):
+            n = getattr(n, "_parent", None)
+        return n
+
+    for n in ast.walk(tree):
+        if isinstance(n, ast.Assign):
+            out.append(n)
+        if isinstance(n, ast.For) and isinstance(n.target, ast.Name):
+            vals = literal_strings(n.iter, scope_of(n))
+            if vals:
+                for st in n.body:
+                    if isinstance(st, ast.Assign):
+                        for v in vals:
+                            c = Sub(n.target.id, v).visit(copy.deepcopy(_strip_parents(st)))
+                            ast.copy_location(c, st)
+                            ast.fix_missing_locations(c)
+                            out.append(c)
+    return out
+
+
+def bind_named(fn, spec, skip_first=True, optional=()):
     """arguments for a call of `fn` from values the caller knows by the parameter names of the reference tree: [(name, value), ...].
     When the function still has parameters of those names they are bound by name (their order is the function's own business);
     otherwise (parameters renamed) by position.  -> (args, kwargs)"""
     params = [a.arg for a in fn.args.args][1 if skip_first else 0:]
+    spec = [(n, v) for n, v in spec if n not in optional or n in params]     # a parameter the function no longer takes is not passed
     names = [n for n, _ in spec]
     if set(names) <= set(params):
         n_default = len(fn.args.defaults)
@@ -419,7 +476,52 @@ class Index:
 
 
 def loc(rel, node):
-    return f"{rel}:{getattr(node, 'lineno', '?')}"
+    return f"{rel}:{getattr(node, '_src_lineno', getattr(node, 'lineno', '?'))}"
+
+
+def renumber_in_order(fn):
+    """statements of a function into which helper bodies were inlined carry the line numbers of the places they were written at; rules
+    that order statements by line number need the order they now have.  Every statement gets a fresh line number in text order (its
+    expressions the same one); the line it was written at is kept as `_src_lineno`, which `loc` reports."""
+    counter = [getattr(fn, "lineno", 1)]
+
+    def stamp(node, line):
+        for n in ast.walk(node):
+            if hasattr(n, "lineno"):
+                if not hasattr(n, "_src_lineno"):
+                    n._src_lineno = n.lineno
+                n.lineno = line
+                if hasattr(n, "end_lineno"):
+                    n.end_lineno = line
+
+    def block(stmts):
+        for st in stmts:
+            counter[0] += 1
+            line = counter[0]
+            if not hasattr(st, "_src_lineno"):
+                st._src_lineno = getattr(st, "lineno", line)
+            # the statement's own expressions (not its nested blocks)
+            for f, v in ast.iter_fields(st):
+                if f in ("body", "orelse", "finalbody", "handlers"):
+                    continue
+                for x in (v if isinstance(v, list) else [v]):
+                    if isinstance(x, ast.AST):
+                        stamp(x, line)
+            st.lineno = line
+            if hasattr(st, "end_lineno"):
+                st.end_lineno = line
+            for f in ("body", "orelse", "finalbody"):
+                sub = getattr(st, f, None)
+                if isinstance(sub, list) and sub and isinstance(sub[0], ast.stmt):
+                    block(sub)
+            for h in getattr(st, "handlers", []) or []:
+                counter[0] += 1
+                h.lineno = counter[0]
+                block(h.body)
+            if hasattr(st, "end_lineno"):
+                st.end_lineno = counter[0]
+
+    block(fn.body)
 
 
 def norm_src(node):
@@ -1349,7 +1451,7 @@ def flatten_function(fn, methods, keep=(), depth=2, cls_name=None, canonical=Tru
         assigned = names_assigned(body)
         counter[0] += 1
         suffix = f"__{h.name}{counter[0]}"
-        rename, pre = {}, []
+        rename, pre, lambdas = {}, [], {}
         for p_ in params:
             arg = bound[p_]
             if isinstance(arg, ast.Name) and (p_ not in assigned or arg.id == p_):
@@ -1358,6 +1460,9 @@ def flatten_function(fn, methods, keep=(), depth=2, cls_name=None, canonical=Tru
                 rename[p_] = arg
             elif p_ not in assigned and isinstance(arg, ast.Attribute) and isinstance(arg.value, ast.Name) and arg.value.id in ("operator", "np", "math"):
                 rename[p_] = arg                 # a library function handed over as a value (operator.gt, np.minimum): read in place
+            elif p_ not in assigned and isinstance(arg, ast.Lambda) and not (arg.args.vararg or arg.args.kwarg or arg.args.kwonlyargs or arg.args.defaults):
+                lambdas[p_] = arg                # a lambda handed over: every call p(...) in the body reads as the lambda's body (its free names
+                rename[p_] = p_                  # are the caller's, substituted after the helper's own names were renamed apart)
             else:
                 rename[p_] = p_ + suffix if (p_ in caller_names) else p_
                 pre.append(ast.Assign(targets=[ast.Name(id=rename[p_], ctx=ast.Store())], value=_strip_parents(arg)))
@@ -1381,6 +1486,23 @@ def flatten_function(fn, methods, keep=(), depth=2, cls_name=None, canonical=Tru
                 return n
 
         body = [R().visit(s) for s in body]
+        if lambdas:
+            class Beta(ast.NodeTransformer):
+                def visit_Call(self, n):
+                    self.generic_visit(n)
+                    if isinstance(n.func, ast.Name) and n.func.id in lambdas and not n.keywords:
+                        lam = lambdas[n.func.id]
+                        if len(n.args) == len(lam.args.args) and not any(isinstance(a_, ast.Starred) for a_ in n.args):
+                            sub = dict(zip([x.arg for x in lam.args.args], n.args))
+
+                            class S(ast.NodeTransformer):
+                                def visit_Name(self, x):
+                                    return _strip_parents(sub[x.id]) if x.id in sub and isinstance(x.ctx, ast.Load) else x
+                            return ast.copy_location(S().visit(_strip_parents(lam.body)), n)
+                    return n
+            body = [Beta().visit(s) for s in body]
+            if any(isinstance(n_, ast.Name) and n_.id in lambdas for s in body for n_ in ast.walk(s)):
+                return None          # the function value is used otherwise than by calling it: left as a call
         out = _single_exit(body, make_result)
         if out is None:
             return None
@@ -1455,4 +1577,6 @@ def flatten_function(fn, methods, keep=(), depth=2, cls_name=None, canonical=Tru
         for ch in ast.iter_child_nodes(node):
             ch._parent = node
     new._flattened = True
+    if counter[0]:
+        renumber_in_order(new)
     return new
